@@ -318,7 +318,17 @@ impl<'a> Gen<'a> {
         if n == 0 && self.rng.chance(1, 2) {
             return String::new();
         }
-        match n % 5 {
+        match n % 7 {
+            // multi-byte characters that share their leading bytes: neighbouring keys first differ
+            // at a continuation byte, where a shortened routing key must not be cut
+            5 => {
+                let c = char::from_u32(0x4E00 + ((n / 7) % 8) as u32 * 0x40 + ((n / 56) % 3) as u32).unwrap();
+                format!("{}{}{}", self.str_prefix, c, n % 11)
+            }
+            6 => {
+                let c = char::from_u32(0x1F600 + ((n / 7) % 4) as u32 * 0x40 + ((n / 28) % 3) as u32 * 0x1000 + ((n / 84) % 2) as u32).unwrap();
+                format!("{}{}{}", self.str_prefix, c, n % 5)
+            }
             0 => format!("{}{:03}", self.str_prefix, n % 1000),
             1 => format!("{}é{}ü", self.str_prefix, n % 97),
             2 => format!("{}{}", self.str_prefix, "x".repeat((n % 40) as usize)),
@@ -492,6 +502,13 @@ impl<'a> Gen<'a> {
     }
 
     fn catalog_op(&mut self) -> Op {
+        if self.rng.chance(self.prof.p_wrong_kind as u64, 4000) {
+            // mostly within one family (same-name types of other widths; tuples with a look-alike element)
+            let fam = self.rng.below(2) as u8 * 4;
+            let made = fam + self.rng.below(4) as u8;
+            let reopened = if self.rng.chance(1, 6) { self.rng.below(8) as u8 } else { fam + self.rng.below(4) as u8 };
+            return Op::TypeProbe { made, reopened, as_key: self.rng.chance(1, 2) };
+        }
         let t = self.tref(None);
         match self.rng.below(10) {
             0..=2 => Op::Open { t },
